@@ -6,7 +6,7 @@
 (*   C20  the same workload under two different heap fill patterns            *)
 (* Both logs are consumed in lock step; an episode fails at its first event   *)
 (* that differs (or at a crash event in either log).                          *)
-EXTENDS Naturals, Sequences, TLC, Json, IOUtils
+EXTENDS Naturals, Sequences, FiniteSets, FiniteSetsExt, TLC, Json, IOUtils
 
 LogA == ndJsonDeserialize(IOEnv.TRACE)
 LogB == ndJsonDeserialize(IOEnv.TRACE2)
@@ -21,8 +21,12 @@ Report(fails) == IF fails = {} THEN TRUE ELSE PrintT(<< "FAIL", la, ep, fails >>
 IsBegin(e) == e.e \in {"begin", "thread"}       \* episode start, or start of the section of one thread's log
 
 (* skip the rest of a failed episode in one log: advance to its next begin *)
-RECURSIVE NextBegin(_, _)
-NextBegin(log, k) == IF k > Len(log) \/ IsBegin(log[k]) THEN k ELSE NextBegin(log, k + 1)
+(* (no recursion over the log: TLC's recursion cost grows quadratically with its depth) *)
+BeginsA == {i \in 1..Len(LogA) : IsBegin(LogA[i])}
+BeginsB == {i \in 1..Len(LogB) : IsBegin(LogB[i])}
+NextIn(S, k, n) == LET T == {i \in S : i >= k} IN IF T = {} THEN n + 1 ELSE Min(T)
+NextA(k) == NextIn(BeginsA, k, Len(LogA))
+NextB(k) == NextIn(BeginsB, k, Len(LogB))
 
 Step ==
     /\ la <= Len(LogA) /\ lb <= Len(LogB)
@@ -35,15 +39,15 @@ Step ==
             /\ Report(IF a.e = "thread" /\ b.e = "thread" THEN {"UNKNOWN-EVENT"} ELSE {Prop})
             /\ ep' = IF a.e = "begin" THEN a.id ELSE b.id
             /\ live' = FALSE
-            /\ la' = IF a.e = "begin" THEN NextBegin(LogA, la + 1) ELSE la
-            /\ lb' = IF a.e = "begin" THEN lb ELSE NextBegin(LogB, lb + 1)
+            /\ la' = IF a.e = "begin" THEN NextA(la + 1) ELSE la
+            /\ lb' = IF a.e = "begin" THEN lb ELSE NextB(lb + 1)
             /\ UNCHANGED cnt
        ELSE IF ~live \/ IsBegin(a) \/ IsBegin(b) \/ a.e = "crash" \/ b.e = "crash" \/ a # b THEN
             (* a difference, a crash, or one log shorter than the other inside this episode *)
             /\ Report(IF live THEN {Prop} \cup (IF a.e = "crash" \/ b.e = "crash" THEN {"CRASH"} ELSE {}) ELSE {})
             /\ live' = FALSE
-            /\ la' = NextBegin(LogA, IF IsBegin(a) THEN la ELSE la + 1)
-            /\ lb' = NextBegin(LogB, IF IsBegin(b) THEN lb ELSE lb + 1)
+            /\ la' = NextA(IF IsBegin(a) THEN la ELSE la + 1)
+            /\ lb' = NextB(IF IsBegin(b) THEN lb ELSE lb + 1)
             /\ UNCHANGED << ep, cnt >>
        ELSE /\ la' = la + 1 /\ lb' = lb + 1
             /\ cnt' = [cnt EXCEPT !.compared = @ + 1]
